@@ -140,12 +140,24 @@ def run(chk, tier):
                     # first-wins VCP
                     cv = v[inn["coverage_pattern_number"]]
                     vb = fld(drd, "volume_data_block")
-                    had = any(len(c) == 3 and c[0] == ("discr", Lc) and c[2] == ((1, 1),) for c in c2)
-                    has_vb = any(len(c) == 3 and c[0] == ("discr", vb) and c[2] == ((1, 1),) for c in c2)
-                    want_c = Lc if (had or not has_vb) else some(fld(somev(vb), "volume_coverage_pattern_number"))
-                    # on this path the VCP is known to be present / absent: Some(payload) and None are then the variable itself
-                    eta = {Lc: some(somev(Lc))} if had else ({Lc: NONE} if any(len(c) == 3 and c[0] == ("discr", Lc) for c in c2) else {})
-                    expect(chk, "R-WIRE", SCAN + "#messages", sym.rebuild(cv, eta), sym.rebuild(want_c, eta), w, "VCP number is taken from the first volume block only", key="drd#%d:vcp" % n_drd)
+                    # specification for every combination of "a VCP is already known" x "this radial carries a volume block": the
+                    # known one wins; compared on the common refinement of the cases, under what this path already fixes
+                    want_c = sym.opt_match(Lc, lambda x: some(x), lambda: sym.opt_match(vb, lambda b: some(fld(b, "volume_coverage_pattern_number")), lambda: NONE))
+                    known = {c[0]: c[2] for c in c2 if len(c) == 3}
+                    subst = {c[0]: (TRUE if c[1] else FALSE) for c in c2 if len(c) == 2}
+                    try:
+                        cells = loops.split_cases({0: cv, 1: want_c}, _known=known, _sub=subst)
+                        okv_ = bool(cells)
+                        for cc, vv in cells:
+                            had = any(len(c) == 3 and c[0] == ("discr", Lc) and c[2] == ((1, 1),) for c in tuple(c2) + tuple(cc))
+                            none = any(len(c) == 3 and c[0] == ("discr", Lc) and not any(lo <= 1 <= hi for lo, hi in c[2]) for c in tuple(c2) + tuple(cc))
+                            eta = {Lc: some(somev(Lc))} if had else ({Lc: NONE} if none else {})
+                            if not sym.sem_eq(sym.rebuild(vv[0], eta), sym.rebuild(vv[1], eta)):
+                                okv_ = False
+                    except sym.Undecided:
+                        okv_ = False
+                    chk.ob("R-WIRE", SCAN + "#messages", okv_, "VCP number is taken from the first volume block only" if okv_ else
+                           "VCP number is not 'the first volume block's, kept once known': on this path it becomes %s" % show(cv)[:200], w, key="drd#%d:vcp" % n_drd)
                 else:
                     n_other += 1
                     chk.ob("R-LIN", SCAN + "#messages", r2 == [("atom", Lr)] and v[inn["coverage_pattern_number"]] == Lc,
